@@ -313,13 +313,38 @@ fn pick_action(w: &W16, r: &mut Rng) -> Action {
         }
         28 => {
             let v = r.idx(2);
-            mk(
-                "vault_router.NextLoan",
-                "vrouter",
-                &core.vault_router,
-                bin(&vrm::ExecuteMsg::NextLoan { initiator: w.inc.users[3].clone(), source_vault: w.vaults[v].addr.to_string(), source_vault_asset_info: w.vaults[v].asset.info(), payload: vec![], to_loan: vec![], loaned_assets: vec![] }),
-                vec![w.vaults[v].addr.clone()],
-            )
+            match r.below(3) {
+                // the registered vault is named as source: only that vault may send it
+                0 => mk(
+                    "vault_router.NextLoan/registered-source",
+                    "vrouter",
+                    &core.vault_router,
+                    bin(&vrm::ExecuteMsg::NextLoan { initiator: w.inc.users[3].clone(), source_vault: w.vaults[v].addr.to_string(), source_vault_asset_info: w.vaults[v].asset.info(), payload: vec![], to_loan: vec![], loaned_assets: vec![] }),
+                    vec![w.vaults[v].addr.clone()],
+                ),
+                // the sender names itself as source vault for an asset that has no vault at all: nobody is authorised
+                1 => {
+                    let who = r.pick(&[w.inc.users[3].clone(), w.inc.users[0].clone(), w.sibling.clone(), pair.addr.clone(), core.vault_factory.clone()]).clone();
+                    mk(
+                        "vault_router.NextLoan/self-named-source-unregistered-asset",
+                        "vrouter",
+                        &core.vault_router,
+                        bin(&vrm::ExecuteMsg::NextLoan { initiator: w.inc.users[3].clone(), source_vault: who.to_string(), source_vault_asset_info: AssetInfo::NativeToken { denom: "uaaa".into() }, payload: vec![], to_loan: vec![], loaned_assets: vec![] }),
+                        vec![],
+                    )
+                }
+                // the sender names itself as source vault for an asset whose registered vault is another contract
+                _ => {
+                    let who = r.pick(&[w.inc.users[3].clone(), w.sibling.clone(), w.vaults[1 - v].addr.clone()]).clone();
+                    mk(
+                        "vault_router.NextLoan/self-named-source-foreign-asset",
+                        "vrouter",
+                        &core.vault_router,
+                        bin(&vrm::ExecuteMsg::NextLoan { initiator: w.inc.users[3].clone(), source_vault: who.to_string(), source_vault_asset_info: w.vaults[v].asset.info(), payload: vec![], to_loan: vec![], loaned_assets: vec![] }),
+                        vec![],
+                    )
+                }
+            }
         }
         29 => mk("vault_router.CompleteLoan", "vrouter", &core.vault_router, bin(&vrm::ExecuteMsg::CompleteLoan { initiator: w.inc.users[3].clone(), loaned_assets: vec![] }), vec![core.vault_router.clone()]),
         // ---------------- fee collector / distributor / lair
@@ -493,7 +518,7 @@ fn callers(w: &W16, a: &Action) -> Vec<(String, Addr, bool)> {
     push("pool-factory", &core.factory, false, &mut v);
     push("vault-factory", &core.vault_factory, false, &mut v);
     push("incentive-factory", &w.inc.ifactory, false, &mut v);
-    for (role, s) in [("sibling:pair", &pair.addr), ("sibling:vault", &w.vaults[0].addr), ("sibling:vault-router", &core.vault_router), ("sibling:fee-collector", &core.collector), ("sibling:fee-distributor", &core.distributor), ("sibling:pool-router", &core.router)] {
+    for (role, s) in [("sibling:pair", &pair.addr), ("sibling:vault", &w.vaults[0].addr), ("sibling:vault1", &w.vaults[1].addr), ("sibling:vault-router", &core.vault_router), ("sibling:fee-collector", &core.collector), ("sibling:fee-distributor", &core.distributor), ("sibling:pool-router", &core.router)] {
         push(role, s, false, &mut v);
     }
     v.push(("relay-contract-driven-by-attacker".to_string(), w.sibling.clone(), true));
